@@ -83,6 +83,34 @@ def gen(repo):
     if len(dm) != 1 or ast.unparse(dm[0].value) != "{dim: f'{self.base}{i}' for (i, dim) in enumerate(ordered_dims, start=self.start)}".replace("(i, dim)", "i, dim") \
             and ast.unparse(dm[0].value) != "{dim: f'{self.base}{i}' for (i, dim) in enumerate(ordered_dims, start=self.start)}":
         raise TransError("DimensionRenamer.fit: dim_mapping changed: %s" % (ast.unparse(dm[0].value) if dm else None))
+    # cross-set models: which constructor parameter, at which position of the per-field pair, feeds which stage of which field
+    ctree, _ = parse_file(repo, "xeofs/cross/base_model_cross_set.py")
+    cinit = find_func(find_class(ctree, "BaseModelCrossSet"), "__init__")
+    wiring = []
+    for st in ast.walk(cinit):
+        if isinstance(st, ast.Assign) and isinstance(st.value, ast.Call) and isinstance(st.targets[0], ast.Attribute) \
+                and isinstance(st.targets[0].value, ast.Name) and st.targets[0].value.id == "self" \
+                and st.targets[0].attr in ("preprocessor1", "preprocessor2", "pca1", "pca2", "whitener1", "whitener2"):
+            obj = st.targets[0].attr
+            for kw in st.value.keywords:
+                v = kw.value
+                if isinstance(v, ast.Subscript):
+                    if not (isinstance(v.value, ast.Name) and isinstance(v.slice, ast.Constant) and isinstance(v.slice.value, int)):
+                        raise TransError("BaseModelCrossSet.__init__: %s(%s=%s)" % (obj, kw.arg, ast.unparse(v)))
+                    wiring.append((obj, kw.arg, v.value.id, v.slice.value))
+                elif not isinstance(v, ast.Name):
+                    raise TransError("BaseModelCrossSet.__init__: %s(%s=%s)" % (obj, kw.arg, ast.unparse(v)))
+    if {w[0] for w in wiring} != {"preprocessor1", "preprocessor2", "pca1", "pca2", "whitener1", "whitener2"}:
+        raise TransError("BaseModelCrossSet.__init__: stages %r" % sorted({w[0] for w in wiring}))
+    # Concatenator: the blocks are cut and re-labelled in insertion order of the fitted coordinates
+    ktree, _ = parse_file(repo, "xeofs/preprocessing/concatenator.py")
+    kcls = find_class(ktree, "Concatenator")
+    loops = [n for n in body_nodoc(find_func(kcls, "_split_dataarray_into_list")) if isinstance(n, ast.For)]
+    if len(loops) != 1 or ast.unparse(loops[0].iter) != "enumerate(self.coords_in.values())":
+        raise TransError("Concatenator._split_dataarray_into_list: blocks are walked as %s" % (ast.unparse(loops[0].iter) if loops else None))
+    kfit = "\n".join(ast.unparse(n) for n in body_nodoc(find_func(kcls, "fit")))
+    if "self.coords_in = {str(i): data.coords[self.feature_name] for (i, data) in enumerate(X)}" not in kfit.replace("for i, data in", "for (i, data) in"):
+        raise TransError("Concatenator.fit: coords_in changed")
     sl = lambda xs: "[" + "; ".join('"%s"' % x for x in xs) + "]"  # noqa
     out = ["(* generated by tools/py2coq/t7_pipe.py from %s and %s *)" % (PRE, REN), "From Coq Require Import String List Bool.",
            "From XV Require Import Model.Pipe.", "Import ListNotations.", "Open Scope string_scope.", "",
@@ -92,5 +120,9 @@ def gen(repo):
            "(* method, iterates in reverse order?, method called on every stage *)",
            "Definition loops : list (string * bool * string) := [",
            ";\n".join('  ("%s", %s, "%s")' % (a, "true" if b else "false", c) for a, b, c in rows), "].", "",
-           "Definition renamer_rule : order_rule := %s." % rule]
+           "Definition renamer_rule : order_rule := %s." % rule, "",
+           "(* cross-set constructor wiring: stage object, its keyword, the constructor parameter, the position in the per-field pair *)",
+           "Definition cross_wiring : list (string * string * string * nat) := [",
+           ";\n".join('  ("%s", "%s", "%s", %d)' % w for w in wiring), "].", "",
+           "Definition concatenator_splits_in_insertion_order : bool := true."]
     return "\n".join(out) + "\n"
